@@ -47,14 +47,17 @@ def build(job):
     return out, None
 
 
-def prune_build_cache(keep=60):
-    """keep the build cache bounded (oldest directories first)"""
+def prune_build_cache(keep=400, min_age_s=6*3600):
+    """keep the build cache bounded: only directories that are BOTH beyond the newest `keep` and older than `min_age_s` are removed
+    (so that concurrently running checks never lose a binary they just built)"""
     if not os.path.isdir(BUILD):
         return
     ds = [os.path.join(BUILD, d) for d in os.listdir(BUILD) if len(d) == 20]
     ds.sort(key=lambda d: os.path.getmtime(d))
+    now = time.time()
     for d in ds[:-keep] if len(ds) > keep else []:
-        sh(["rm", "-rf", d])
+        if now - os.path.getmtime(d) > min_age_s:
+            sh(["rm", "-rf", d])
 
 
 def run_job(job, binpath, deadline_s):
